@@ -537,6 +537,10 @@ def run(ctx):
     ctx.assumptions += [
         "hand-written model C27/Model.v of unique_cache / get_or_insert_unique_type / ctypedescr_dealloc / "
         "remove_dead_unique_reference / tp_clear; tied by this run's differential histories (raw level)",
+        "model fact tied by the raw-level correspondence: the key of a type is built from the objects the type itself "
+        "references and keeps alive — for a function type the result and the DECAYED arguments (array -> its pointer "
+        "type, new_function_type); exercised with array-typed arguments of several lengths, array types freed and their "
+        "addresses reused, and the returned ctype's .result/.args/.ellipsis compared with the request",
         "CPython: weak references are cleared before an object's memory can be reused; refcount-zero objects are "
         "deallocated at once; the allocator never places a new object on a live one (Inv: distinct addresses)",
         "the cyclic-GC path (zombie objects) is covered by the theorems only: real ctype cycles (struct with a "
